@@ -142,11 +142,12 @@ async fn one_config(a: Args, idx: usize, proto: Proto, transport: Transport) -> 
         rep.inconclusive("idle baseline never settled");
         return rep;
     };
-    let endings: Vec<Closer> = vec![Closer::TargetAfterAnswer, Closer::AppAfterAll, Closer::AppAfterRequest, Closer::AppMid(3000), Closer::TargetMid(3000), Closer::AppReset(3000), Closer::TargetReset(3000), Closer::AppMid(0), Closer::TargetMid(0)];
+    let endings: Vec<Closer> = vec![Closer::TargetAfterAnswer, Closer::AppAfterAll, Closer::AppAfterRequest, Closer::AppMid(3000), Closer::TargetMid(3000), Closer::AppReset(3000), Closer::TargetReset(3000), Closer::AppMid(0), Closer::TargetMid(0), Closer::AppAfterAllTargetHolds];
     let mut next_id = 100u64;
     let mut batches: Vec<(usize, Usage)> = Vec::new();
     let sizes = if a.thorough { vec![16usize, 32, 64] } else { vec![12usize, 24] };
-    for n in sizes {
+    let sizes_last = &sizes[sizes.len() - 1].clone();
+    for n in sizes.clone() {
         let mut specs = Vec::new();
         for k in 0..n {
             let closer = endings[k % endings.len()];
@@ -214,6 +215,26 @@ async fn one_config(a: Args, idx: usize, proto: Proto, transport: Transport) -> 
                 };
                 if let Some(sym) = sym {
                     rep.violation(format!("C15|{}|{:?}|{}", cfgname, spec.kind, sym), format!("{}: {}", cfgname, sym), json!({"seed": a.seed, "deploy": d.describe(), "flow": spec.describe(), "observed": v.detail, "ms_since_cut": t_cut.elapsed().as_millis()}));
+                }
+            }
+        }
+        // applications that give up in the middle of the local handshake (once per configuration: the client may hold
+        // such a connection until its 30 s handshake timer fires, which the accounting below waits out)
+        if n == *sizes_last {
+            let partials: [&[u8]; 6] = [b"\x05", b"\x05\x01", b"CONNECT localhost:80 HTTP/1.1\r\nHost: localhost\r\n", b"GET http://localhost/ HT", b"C", b"\x05\x01\x00"];
+            for (k, p) in partials.iter().enumerate() {
+                if let Ok(mut s) = tokio::net::TcpStream::connect(("127.0.0.1", d.client_port)).await {
+                    let _ = s.write_all(p).await;
+                    if k == 5 {
+                        let mut r = [0u8; 2];
+                        let _ = tokio::time::timeout(Duration::from_secs(2), s.read_exact(&mut r)).await;
+                        let _ = s.write_all(b"\x05\x01\x00\x03\x09loc").await;
+                    }
+                    let _ = s.shutdown().await;
+                    tokio::time::sleep(Duration::from_millis(50)).await;
+                    drop(s);
+                    rep.mon("abandoned_local_handshakes", 1);
+                    rep.case(&(idx, "abandoned-handshake", k), true);
                 }
             }
         }
